@@ -195,8 +195,26 @@ theorem map_labAt_eq : ∀ (ro rp : VCode), ro.length = rp.length →
       intro i lo lp h1 h2
       exact h (i + 1) lo lp (by simpa using h1) (by simpa using h2)
 
+/-- the table-passing form computes the same as the form the proofs are about -/
+theorem lineOKD_eq (orig opt : VCode) (k : Nat) (K : Option Facts) (lo lp : VLine) :
+    lineOKD orig opt (deadTable opt) k K lo lp = lineOK orig opt k K lo lp := rfl
+
+theorem checkFromD_eq (orig opt : VCode) : ∀ (ks : List (Option Facts)) (ro rp : VCode) (k : Nat),
+    checkFromD orig opt (deadTable opt) k ks ro rp = checkFrom orig opt k ks ro rp := by
+  intro ks
+  induction ks with
+  | nil => intro ro rp k; cases ro <;> cases rp <;> rfl
+  | cons K ks ih =>
+    intro ro rp k
+    cases ro with
+    | nil => cases rp <;> rfl
+    | cons lo ro =>
+      cases rp with
+      | nil => rfl
+      | cons lp rp => simp only [checkFromD, checkFrom, lineOKD_eq, ih]
+
 theorem accepted_of_validate (orig opt : VCode) (h : validate orig opt = true) : Accepted orig opt := by
-  simp only [validate, Bool.and_eq_true, beq_iff_eq] at h
+  simp only [validate, Bool.and_eq_true, beq_iff_eq, checkFromD_eq] at h
   obtain ⟨hlen, hc⟩ := h
   obtain ⟨e1, e2, hall⟩ := checkFrom_line orig opt (factsOf orig) orig opt 0 hc
   have hline : ∀ k K lo lp, (factsOf orig)[k]? = some K → orig[k]? = some lo → opt[k]? = some lp →
